@@ -34,8 +34,8 @@ pub fn rlines(text: &str) -> Vec<&str> {
     out
 }
 
-/// RSlice. `None` = nothing; `Some(None)` = start column splits a surrogate pair (not
-/// asserted); `Some(Some(s))` = the characters covering code units c..c+n.
+/// RSlice. `None` = nothing; `Some(Some(s))` = the characters covering code units c..c+n
+/// (a surrogate pair that contains unit c or unit c+n-1 is included whole).
 pub fn rslice(line: &str, c: u64, n: u64) -> Option<Option<&str>> {
     let total: u64 = line.chars().map(|ch| ch.len_utf16() as u64).sum();
     if c + n > total {
@@ -49,8 +49,14 @@ pub fn rslice(line: &str, c: u64, n: u64) -> Option<Option<&str>> {
             start_byte = Some(bi);
             break;
         }
-        if unit > c {
-            return Some(None);
+        if unit + ch.len_utf16() as u64 > c {
+            // unit c is the second half of this character: the character is covered
+            // (an empty span at such a column has no defined answer)
+            if n == 0 {
+                return Some(None);
+            }
+            start_byte = Some(bi);
+            break;
         }
         unit += ch.len_utf16() as u64;
     }
@@ -65,7 +71,7 @@ pub fn rslice(line: &str, c: u64, n: u64) -> Option<Option<&str>> {
         }
     };
     let mut end_byte = start_byte;
-    let mut u = c;
+    let mut u = unit.min(c);
     for ch in line[start_byte..].chars() {
         if u >= c + n {
             break;
@@ -369,7 +375,7 @@ pub fn run(run: &mut Run) -> Finish {
         rule: "E2 explicit-state search on the real SourceView. For every text of the stated space: BFS from a fresh view over the request alphabet {get_line(0..=n+1), get_line(MAX), line_count, lines().collect, clone+get_line, clone+line_count, three get_line_slice requests}; states are the real (progress counter, cached line table) read through the cfg(sourcemap_verif) hook and used only as a dedup key; the search runs until no new state appears, so the claim covers request sequences of any length. Every transition compares the returned value with RLines/RSlice. Plus unmerged request histories and every (line, col, span) triple. states = distinct (text, real state) pairs; transitions = requests executed on real views; traces = histories replayed on fresh real objects (all of them — there is no separate model whose traces would need validation).".into(),
         assumptions: vec![
             "RLines / RSlice (refmodel of the statement): split at \\r\\n | \\n | \\r, UTF-16 slicing with whole pairs included".into(),
-            "slice start columns that split a surrogate pair: crash-freedom only (DESIGN 3.3)".into(),
+            "a slice that starts on the second half of a surrogate pair covers that pair (the statement's 'whole surrogate pairs included'; asserted since the audit of C15)".into(),
             "(processed_until, cached lines) is the whole mutable state of a SourceView, so equal keys have equal futures; the unmerged-history slice does not rely on this".into(),
         ],
         coverage_extra: json!({"max_text_len": maxlen, "fixpoint_reached": ff == 0, "max_bfs_depth": max_depth.load(std::sync::atomic::Ordering::Relaxed), "texts": total}),
